@@ -36,7 +36,7 @@ var (
 )
 
 type AlterCmd struct {
-	A     string   // AddColumn | ModifyOrderBy
+	A     string // AddColumn | ModifyOrderBy
 	Ine   bool
 	Col   string
 	Alias string
